@@ -112,6 +112,9 @@ struct Ref {
     depth: u64,
     /// how a typed constant is read (index into the read forms of its type, modulo)
     form: u8,
+    /// reads of a constant: how many read sites the mention has and on which paths they lie
+    /// (index into `MULTI`; 0 = one read on the straight path)
+    multi: u8,
 }
 
 #[derive(Clone, Debug)]
@@ -131,7 +134,8 @@ struct Item {
     /// a term that builds a local compound value and clones / compares it (index into `LOCAL_NAMES`; 0 none)
     local: u8,
     /// constants: how the accessor `rd_K<n>` is written: bit 0 = as a `filtermap` (else `fn`),
-    /// bit 1 = at the start of pkg (else at its end), bit 2 = a `test t_K<n>` item reads the constant too
+    /// bit 1 = at the start of pkg (else at its end), bit 2 = a `test t_K<n>` item reads the constant too,
+    /// bit 3 = accessor and test item live in the constant's own module (else in pkg)
     acc: u8,
     refs: Vec<Ref>,
 }
@@ -153,13 +157,16 @@ const READ_FORMS: [&[(&str, &str)]; 6] = [
         ("copy-match", "{ let c = $P; (match c { Some(s) => num(s), None => 0, }) }"),
     ],
     &[
-        // (`K.n` directly is "Getting fields of constants not supported yet" in mir/lower.rs: a
-        // compiler limitation that belongs to C06, so a record constant is copied first)
         ("copy-field", "{ let c = $P; c.n }"),
         ("copy-field-argument", "{ let c = $P; num(c.s) }"),
         ("copy-field-method", "{ let c = $P; num(c.s.to_uppercase()) }"),
         ("copy-copy", "{ let c = $P; let e = c; num(e.s) + c.n - c.n }"),
         ("eq", "{ let c = $P; (if c == $P { c.n } else { 0 }) }"),
+        // a field of the constant itself (`path_value` with fields: the constant is copied
+        // into a temporary at the site and the field is read from the copy)
+        ("field", "$P.n"),
+        ("field-argument", "num($P.s)"),
+        ("field-method", "num($P.s.to_uppercase())"),
     ],
     &[
         ("match", "(match $P { A(s) => num(s), B => 0, })"),
@@ -198,6 +205,37 @@ const LOCAL_NAMES: [(&str, &str); 7] = [
     ("list-clone", "{ let l = [\"0\"]; let c = l; (match c.get(0) { Some(s) => num(s), None => 1, }) + (match l.get(0) { Some(s) => num(s), None => 1, }) }"),
     ("option-eq", "{ let o: String? = Option.Some(\"0\"); let q = o; (if o == q { 0 } else { 1 }) }"),
 ];
+
+/// Several read sites of the same constant in one body, on different paths:
+/// (name, template with `$V` = one read site, `$D` = the depth the body runs with).
+/// The first site in source order is conditionally executed, a later one lies on
+/// a path around it. `early-return` is rendered as a statement in front of the
+/// function body (`if d > 1 { return $V + 7; }`) plus one ordinary read.
+const MULTI: [(&str, &str); 8] = [
+    ("single", "$V"),
+    ("then-after", "((if $D > 0 { $V } else { 0 }) + $V)"),
+    ("else-after", "((if $D > 0 { 0 } else { $V }) + $V)"),
+    ("while-after", "{ let acc: u64 = 0; let i: u64 = 0; while i < $D { acc = acc + $V; i = i + 1; } acc + $V }"),
+    ("match-arm-after", "((match (if $D > 0 { Option.Some($D) } else { Option.None }) { Some(v) => $V + v - v, None => 0, }) + $V)"),
+    ("both-arms-after", "((if $D > 0 { $V } else { $V + 0 }) + $V)"),
+    ("nested-after", "((if $D > 0 { let t = { let u = $V; u }; t } else { 0 }) + $V)"),
+    ("early-return", "$V"),
+];
+const EARLY: u8 = 7;
+
+/// how many times the value of the constant is counted when the body runs with depth `d`
+fn multi_count(multi: u8, in_const: bool, d: u64) -> u64 {
+    match (multi, in_const) {
+        (0, _) => 1,
+        (1, _) | (4, _) | (6, _) => if d > 0 { 2 } else { 1 },
+        (2, _) => if d > 0 { 1 } else { 2 },
+        (3, _) => d + 1,
+        (5, _) => 2,
+        // a constant initialiser has nothing to return from: rendered as `then-after`
+        (_, true) => if d > 0 { 2 } else { 1 },
+        (_, false) => 1,
+    }
+}
 
 #[derive(Clone, Debug, PartialEq)]
 enum Expect {
@@ -260,7 +298,8 @@ fn pick_root(p: &mut Prng, consts: &[usize], r: &[Vec<bool>]) -> usize {
 
 fn gen_ref(p: &mut Prng, to: usize, same_module: bool) -> Ref {
     let path = if same_module { if p.chance(1, 4) { 1 } else { 0 } } else { p.below(4) as u8 };
-    Ref { to, style: p.below(8) as u8, path, guarded: false, depth: p.below(3), form: p.below(12) as u8 }
+    let multi = if p.chance(1, 3) { 1 + p.below(MULTI.len() as u64 - 1) as u8 } else { 0 };
+    Ref { to, style: p.below(8) as u8, path, guarded: false, depth: p.below(3), form: p.below(12) as u8, multi }
 }
 
 fn plain_item(is_const: bool, n: usize, module: usize) -> Item {
@@ -268,7 +307,7 @@ fn plain_item(is_const: bool, n: usize, module: usize) -> Item {
 }
 
 fn plain_ref(to: usize) -> Ref {
-    Ref { to, style: 0, path: 0, guarded: false, depth: 1, form: 0 }
+    Ref { to, style: 0, path: 0, guarded: false, depth: 1, form: 0, multi: 0 }
 }
 
 /// Class representatives, generated first on every run whatever the seed:
@@ -277,7 +316,114 @@ fn plain_ref(to: usize) -> Ref {
 /// compound value in a function a constant needs.
 fn boundary_count() -> u64 {
     let forms: usize = READ_FORMS.iter().map(|f| f.len()).sum();
-    (CTX_FORMS.len() * 5 + forms * 3 + (LOCAL_NAMES.len() - 1) * 2) as u64
+    (CTX_FORMS.len() * 5 + forms * 3 + (LOCAL_NAMES.len() - 1) * 2 + multi_family() + scc_family(false)) as u64
+}
+
+/// several read sites of one constant on different paths: shape × type of the constant × where the body runs
+fn multi_family() -> usize {
+    (MULTI.len() - 1) * TY_NAMES.len() * 3
+}
+
+fn multi_graph(g: usize) -> (Vec<Item>, Expect) {
+    let place = g % 3;
+    let ty = (g / 3) % TY_NAMES.len();
+    let multi = 1 + (g / 3 / TY_NAMES.len()) as u8;
+    let m = |k: usize| (g + k) % 4;
+    let mut items = match place {
+        // K0 → K1, the initialiser of K0 has the read sites
+        2 => vec![plain_item(true, 0, m(0)), plain_item(true, 1, m(1))],
+        // K0 → f1 → K2, f1 has the read sites; K0 calls it with depth 0 (place 0) or 2 (place 1)
+        _ => vec![plain_item(true, 0, m(0)), plain_item(false, 1, m(1)), plain_item(true, 2, m(2))],
+    };
+    let n = items.len();
+    for i in 0..n - 1 {
+        items[i].refs.push(plain_ref(i + 1));
+    }
+    items[0].refs[0].depth = if place == 1 { 2 } else { 0 };
+    if place == 2 {
+        items[0].refs[0].depth = (g / 3) as u64 % 3;
+    }
+    items[n - 2].refs[0].multi = multi;
+    items[n - 2].refs[0].form = (g / 7) as u8;
+    items[n - 1].ty = ty as u8;
+    (items, Expect::Accept)
+}
+
+fn factorial(n: usize) -> usize {
+    (1..=n).product()
+}
+
+fn nth_perm(n: usize, mut k: usize) -> Vec<usize> {
+    let mut pool: Vec<usize> = (0..n).collect();
+    let mut out = vec![];
+    for i in (1..=n).rev() {
+        let f = factorial(i - 1);
+        out.push(pool.remove((k / f) % i));
+        k %= f;
+    }
+    out
+}
+
+/// A constant that reaches a context read through a cycle of mutually recursive
+/// functions: ring size × which member the constant calls (the reader is member
+/// 0) × reader reads directly / through a helper outside the ring × every
+/// assignment of the name numbers to the roles (the order in which the SCC pass
+/// and the context check visit the items is the order of their names) × module
+/// pattern (all in pkg / constant in a later module / functions in a later
+/// module). `extended` (thorough tier and search) adds rings of four and the
+/// helper variants of rings of three.
+fn scc_shapes(extended: bool) -> Vec<(usize, usize, bool, usize)> {
+    // (ring size, entry member, via helper, number of module patterns)
+    let mut v = vec![(2, 0, false, 3), (2, 1, false, 3), (2, 0, true, 3), (2, 1, true, 3), (3, 1, false, 2), (3, 2, false, 2)];
+    if extended {
+        v.extend([(3, 1, true, 3), (3, 2, true, 3), (4, 1, false, 2), (4, 2, false, 2), (4, 3, false, 2)]);
+    }
+    v
+}
+
+fn scc_family(extended: bool) -> usize {
+    scc_shapes(extended).iter().map(|&(s, _, _, mp)| factorial(s + 1) * mp).sum()
+}
+
+fn scc_graph(mut g: usize, extended: bool) -> (Vec<Item>, Expect) {
+    let g0 = g;
+    for (s, entry, helper, mp) in scc_shapes(extended) {
+        let count = factorial(s + 1) * mp;
+        if g >= count {
+            g -= count;
+            continue;
+        }
+        let perm = nth_perm(s + 1, g / mp);
+        let modpat = g % mp;
+        let (mk, mf) = match modpat {
+            0 => (2, 0), // functions in pkg, constant in pkg.mb: the SCC pass starts at a ring member
+            1 => (0, 0),
+            _ => (0, 3), // constant in pkg, functions in pkg.ma.mc
+        };
+        let mut items = vec![plain_item(true, perm[0], mk)];
+        // the accessor lives with the constant: nothing in pkg leads to the ring
+        items[0].acc |= 8;
+        for i in 0..s {
+            let mut f = plain_item(false, perm[1 + i], mf);
+            let mut r = plain_ref(1 + (i + 1) % s);
+            r.guarded = true;
+            f.refs.push(r);
+            items.push(f);
+        }
+        items[0].refs.push(plain_ref(1 + entry));
+        items[0].refs[0].depth = (g0 % 3) as u64;
+        let reader = if helper {
+            items.push(plain_item(false, s + 1, (mf + g0) % 4));
+            items[1].refs.push(plain_ref(s + 1));
+            s + 1
+        } else {
+            1
+        };
+        items[reader].uses_ctx = true;
+        items[reader].ctx_form = (g0 % CTX_FORMS.len()) as u8;
+        return (items, Expect::Context("via-function-cycle"));
+    }
+    unreachable!("scc_graph index out of range")
 }
 
 fn boundary_graph(g: u64) -> (Vec<Item>, Expect) {
@@ -353,6 +499,15 @@ fn boundary_graph(g: u64) -> (Vec<Item>, Expect) {
         return (items, Expect::Accept);
     }
     g -= forms * 3;
+    if g >= (LOCAL_NAMES.len() - 1) * 2 {
+        g -= (LOCAL_NAMES.len() - 1) * 2;
+        // --- several read sites of one constant on different paths
+        if g < multi_family() {
+            return multi_graph(g);
+        }
+        // --- context reads inside / behind a cycle of mutually recursive functions
+        return scc_graph(g - multi_family(), false);
+    }
     // --- local compound values: in a function a constant calls / in the initialiser
     let local = (1 + g / 2) as u8;
     let mut items = vec![plain_item(true, 0, m(0)), plain_item(false, 1, m(1))];
@@ -361,8 +516,19 @@ fn boundary_graph(g: u64) -> (Vec<Item>, Expect) {
     (items, Expect::Accept)
 }
 
+/// graphs from `EXT_BASE` on are the extended table of function cycles (thorough tier, search)
+const EXT_BASE: u64 = 1 << 40;
+
+/// a class representative (table entry), not a random graph
+fn is_rep(g: u64) -> bool {
+    g < boundary_count() || g >= EXT_BASE
+}
+
 /// The graph of case `g` (shared by all its declaration-order variants).
 fn gen_graph(seed: u64, g: u64) -> (Vec<Item>, Expect) {
+    if g >= EXT_BASE {
+        return scc_graph((g - EXT_BASE) as usize % scc_family(true), true);
+    }
     if g < boundary_count() {
         return boundary_graph(g);
     }
@@ -383,7 +549,7 @@ fn gen_graph(seed: u64, g: u64) -> (Vec<Item>, Expect) {
             ty: if p.chance(1, 2) { 0 } else { p.below(TY_NAMES.len() as u64) as u8 },
             alias: match p.below(6) { 0 => Some(true), 1 => Some(false), _ => None },
             local: if p.chance(1, 5) { 1 + p.below(LOCAL_NAMES.len() as u64 - 1) as u8 } else { 0 },
-            acc: if p.chance(1, 2) { 0 } else { p.below(8) as u8 },
+            acc: if p.chance(1, 2) { 0 } else { p.below(16) as u8 },
             refs: vec![],
         })
         .collect();
@@ -420,6 +586,30 @@ fn gen_graph(seed: u64, g: u64) -> (Vec<Item>, Expect) {
             items[i].refs.pop();
         }
     }
+    // a deliberate ring of two or three functions (mutual recursion), every call guarded
+    if p.chance(1, 3) {
+        let fs: Vec<usize> = (0..n).filter(|&i| !items[i].is_const).collect();
+        if fs.len() >= 2 {
+            let k = if fs.len() >= 3 && p.chance(1, 3) { 3 } else { 2 };
+            let start = p.below((fs.len() - k + 1) as u64) as usize;
+            let ring: Vec<usize> = fs[start..start + k].to_vec();
+            let mut added: Vec<usize> = vec![];
+            for (a, &i) in ring.iter().enumerate() {
+                let j = ring[(a + 1) % k];
+                if !items[i].refs.iter().any(|r| r.to == j) {
+                    let mut r = gen_ref(&mut p, j, items[i].module == items[j].module);
+                    r.guarded = true;
+                    items[i].refs.push(r);
+                    added.push(i);
+                }
+            }
+            if const_on_cycle(&items) {
+                for i in added {
+                    items[i].refs.pop();
+                }
+            }
+        }
+    }
     let r = reach(&items);
     let consts: Vec<usize> = (0..n).filter(|&i| items[i].is_const).collect();
     let roll = p.below(20);
@@ -452,12 +642,22 @@ fn gen_graph(seed: u64, g: u64) -> (Vec<Item>, Expect) {
         // a context use some constant reaches
         let c = pick_root(&mut p, &consts, &r);
         let from: Vec<usize> = (0..n).filter(|&i| r[c][i]).collect();
-        let a = if from.is_empty() || p.chance(1, 6) { c } else { *p.pick(&from) };
+        // prefer a member of a cycle of functions the constant reaches
+        let cyc: Vec<usize> = from.iter().copied().filter(|&i| r[i][i]).collect();
+        let a = if from.is_empty() || p.chance(1, 6) {
+            c
+        } else if !cyc.is_empty() && p.chance(1, 2) {
+            *p.pick(&cyc)
+        } else {
+            *p.pick(&from)
+        };
         items[a].uses_ctx = true;
         let kind = if a == c {
             "direct"
         } else if items[a].is_const {
             "via-constant"
+        } else if r[a][a] {
+            "via-function-cycle"
         } else {
             "via-function"
         };
@@ -504,12 +704,14 @@ fn gen_case(seed: u64, index: u64) -> Case {
                     let g = r.guarded;
                     let d = r.depth;
                     let f = r.form;
+                    let mu = r.multi;
                     *r = gen_ref(&mut p, r.to, mods[r.to] == m);
                     r.guarded = g;
                     r.depth = d;
-                    if index / VARIANTS < boundary_count() {
-                        // a class representative keeps its read form in every variant
+                    if is_rep(index / VARIANTS) {
+                        // a class representative keeps its read form and its read sites in every variant
                         r.form = f;
+                        r.multi = mu;
                     }
                 }
             }
@@ -572,6 +774,7 @@ fn render(case: &Case) -> Files {
         let it = &items[i];
         let m = it.module;
         let mut terms: Vec<String> = vec![];
+        let mut prefixes: Vec<String> = vec![];
         if it.is_const {
             terms.push(format!("emit({})", it.n));
         } else {
@@ -610,7 +813,29 @@ fn render(case: &Case) -> Files {
             };
             let (val, simple) = if t.is_const {
                 let (fname, tpl) = read_form(t, r.form);
-                (tpl.replace("$P", &path), t.ty == 0 && fname == "bare")
+                let simple = t.ty == 0 && fname == "bare";
+                let site = tpl.replace("$P", &path);
+                if r.multi == 0 {
+                    (site, simple)
+                } else {
+                    // several read sites of the constant, on different paths of this body
+                    let site = if simple { site } else { format!("({site})") };
+                    let dexpr = if it.is_const { format!("idu({})", r.depth) } else { "d".to_string() };
+                    let shape = if r.multi != EARLY {
+                        r.multi as usize
+                    } else if it.is_const {
+                        1
+                    } else {
+                        let imp = match &local_import {
+                            Some(imp) => format!("{imp} "),
+                            None => String::new(),
+                        };
+                        prefixes.push(format!("if d > 1 {{ {imp}return {site} + 7; }}"));
+                        0
+                    };
+                    let v = MULTI[shape].1.replace("$V", &site).replace("$D", &dexpr);
+                    (v, simple && shape == 0)
+                }
             } else if it.is_const {
                 (format!("{path}({})", r.depth), true)
             } else if r.guarded {
@@ -659,14 +884,16 @@ fn render(case: &Case) -> Files {
                 None => bodies[m].push(decl),
             }
         } else {
-            bodies[m].push(format!("fn {}(d: u64) -> u64 {{ {} }}", it.name(), body));
+            bodies[m].push(format!("fn {}(d: u64) -> u64 {{ {}{} }}", it.name(), prefixes.iter().map(|p| format!("{p} ")).collect::<String>(), body));
         }
     }
     // accessors for the constants live in pkg, before or after everything else,
     // as functions or filtermaps; some constants are also read by a test item
     let mut oracle = Oracle { items, cval: vec![None; items.len()], fmemo: BTreeMap::new() };
-    let mut front: Vec<String> = vec![];
+    let mut fronts: Vec<Vec<String>> = vec![vec![]; 4];
     for (i, it) in items.iter().enumerate().filter(|(_, i)| i.is_const) {
+        // bit 3: the accessor (and the test item) live in the constant's own module instead of pkg
+        let am = if it.acc & 8 == 8 { it.module } else { 0 };
         let mut names = vec![it.name()];
         if it.alias.is_some() {
             names.push(format!("A{}", it.n));
@@ -687,14 +914,17 @@ fn render(case: &Case) -> Files {
                 out.push(format!("test t_{name} {{ if {read} != {want} {{ reject; }} accept }}"));
             }
             if it.acc & 2 == 2 {
-                front.append(&mut out);
+                fronts[am].append(&mut out);
             } else {
-                bodies[0].append(&mut out);
+                bodies[am].append(&mut out);
             }
         }
     }
-    front.append(&mut bodies[0]);
-    bodies[0] = front;
+    for m in 0..4 {
+        let mut f = std::mem::take(&mut fronts[m]);
+        f.append(&mut bodies[m]);
+        bodies[m] = f;
+    }
     let files = (0..4)
         .map(|m| {
             let mut s = String::new();
@@ -737,11 +967,12 @@ fn known_structure(case: &Case) -> (BTreeMap<String, char>, BTreeSet<(String, St
             edges.insert((from.clone(), var));
         }
         if it.is_const {
-            let rd = format!("pkg.rd_{}", it.name());
+            let am = acc_module(it);
+            let rd = format!("{am}.rd_{}", it.name());
             kinds.insert(rd.clone(), 'f');
             edges.insert((rd, from.clone()));
             if it.acc & 4 == 4 {
-                let t = format!("pkg.test#t_{}", it.name());
+                let t = format!("{am}.test#t_{}", it.name());
                 kinds.insert(t.clone(), 'f');
                 edges.insert((t, from.clone()));
             }
@@ -749,11 +980,11 @@ fn known_structure(case: &Case) -> (BTreeMap<String, char>, BTreeSet<(String, St
                 let a = format!("{}.A{}", ABS[it.module], it.n);
                 kinds.insert(a.clone(), 'c');
                 edges.insert((a.clone(), from.clone()));
-                let rd = format!("pkg.rd_A{}", it.n);
+                let rd = format!("{am}.rd_A{}", it.n);
                 kinds.insert(rd.clone(), 'f');
                 edges.insert((rd, a.clone()));
                 if it.acc & 4 == 4 {
-                    let t = format!("pkg.test#t_A{}", it.n);
+                    let t = format!("{am}.test#t_A{}", it.n);
                     kinds.insert(t.clone(), 'f');
                     edges.insert((t, a));
                 }
@@ -761,6 +992,80 @@ fn known_structure(case: &Case) -> (BTreeMap<String, char>, BTreeSet<(String, St
         }
     }
     (kinds, edges)
+}
+
+/// How many read sites of which constant every generated item has in its
+/// source: (full name of the item, full name of the constant) → sites.
+fn known_sites(case: &Case) -> BTreeMap<(String, String), usize> {
+    let items = &case.items;
+    let full = |it: &Item| format!("{}.{}", ABS[it.module], it.name());
+    let mut m: BTreeMap<(String, String), usize> = BTreeMap::new();
+    for it in items {
+        for r in it.refs.iter().filter(|r| items[r.to].is_const) {
+            let t = &items[r.to];
+            let per_site = read_form(t, r.form).1.matches("$P").count();
+            let shape = if r.multi != EARLY { r.multi } else if it.is_const { 1 } else { EARLY };
+            let sites = if shape == EARLY { 2 } else { MULTI[shape as usize].1.matches("$V").count() };
+            *m.entry((full(it), full(t))).or_default() += per_site * sites;
+        }
+        if it.is_const {
+            let am = acc_module(it);
+            let per_read = read_form(it, 0).1.matches("$P").count();
+            let mut names = vec![it.name()];
+            if it.alias.is_some() {
+                names.push(format!("A{}", it.n));
+                m.insert((format!("{}.A{}", ABS[it.module], it.n), full(it)), 1);
+            }
+            for name in names {
+                let c = format!("{}.{name}", ABS[it.module]);
+                m.insert((format!("{am}.rd_{name}"), c.clone()), per_read);
+                if it.acc & 4 == 4 {
+                    m.insert((format!("{am}.test#t_{name}"), c), per_read);
+                }
+            }
+        }
+    }
+    m
+}
+
+/// The lowered bodies against the source: every read site of a constant is one
+/// `ConstantAddress` of that constant in the body of the item it stands in — no
+/// site shares the read of another one, whatever path it lies on.
+fn check_read_sites(rep: &mut Report, case: &Case, lir: &[LirItem], input: &Value) {
+    let want = known_sites(case);
+    let mut got: BTreeMap<(String, String), usize> = BTreeMap::new();
+    for i in lir {
+        let name = match &i.constant {
+            Some((full, _)) => full.clone(),
+            None => i.name.clone(),
+        };
+        for (c, n) in i.consts.iter().zip(&i.const_reads) {
+            *got.entry((name.clone(), c.clone())).or_default() += n;
+        }
+    }
+    for (k, w) in &want {
+        let g = got.get(k).copied().unwrap_or(0);
+        if g != *w {
+            rep.mismatch(
+                "the lowered body of an item reads a constant (ConstantAddress) another number of times than the item has read sites of it",
+                json!({"case": input, "item": k.0, "constant": k.1, "read_sites": w, "constant_address_instructions": g}),
+            );
+        }
+    }
+    for (k, g) in &got {
+        if !want.contains_key(k) {
+            rep.mismatch(
+                "the lowered body of an item reads a constant the item does not mention (generator)",
+                json!({"case": input, "item": k.0, "constant": k.1, "constant_address_instructions": g}),
+            );
+        }
+    }
+    rep.hist("lir-read-sites", format!("at most {} sites of one constant in one item", want.values().max().copied().unwrap_or(0)));
+}
+
+/// full name of the module the accessor / test item of a constant lives in
+fn acc_module(it: &Item) -> &'static str {
+    if it.acc & 8 == 8 { ABS[it.module] } else { "pkg" }
 }
 
 fn tree(files: &[(usize, String)]) -> FileTree {
@@ -794,7 +1099,7 @@ impl Oracle<'_> {
         let mut v = it.n as u64 + 1;
         for r in it.refs.clone() {
             v = v.wrapping_add(if self.items[r.to].is_const {
-                self.constant(r.to)
+                self.constant(r.to).wrapping_mul(multi_count(r.multi, true, r.depth))
             } else {
                 self.function(r.to, r.depth)
             });
@@ -807,13 +1112,22 @@ impl Oracle<'_> {
             return *v;
         }
         let it = &self.items[f];
+        // `if d > 1 { return K + 7; }` in front of the body
+        if d > 1 {
+            if let Some(r) = it.refs.iter().find(|r| self.items[r.to].is_const && r.multi == EARLY) {
+                let to = r.to;
+                let v = self.constant(to).wrapping_add(7);
+                self.fmemo.insert((f, d), v);
+                return v;
+            }
+        }
         let mut v = 100 + it.n as u64;
         if it.uses_ctx {
             v = v.wrapping_add(CX);
         }
         for r in it.refs.clone() {
             v = v.wrapping_add(if self.items[r.to].is_const {
-                self.constant(r.to)
+                self.constant(r.to).wrapping_mul(multi_count(r.multi, false, d))
             } else if r.guarded {
                 if d > 0 { self.function(r.to, d - 1) } else { 0 }
             } else {
@@ -1127,6 +1441,23 @@ fn reached_ctx_form(items: &[Item]) -> &'static str {
         .unwrap_or("?")
 }
 
+/// For a dumped graph with a cycle of functions one of whose members mentions
+/// a context variable (directly, or a function outside the cycle that does):
+/// did the SCC pass enter the cycle at that member (it is the root, popped
+/// last) or at another one?
+fn cycle_entry(d: &Dump) -> Option<&'static str> {
+    let targets = |i: usize| d.edges.iter().find(|e| e.0 == i).map(|e| e.1.clone()).unwrap_or_default();
+    let reads = |i: usize| targets(i).iter().any(|t| d.nodes[*t].kind == NodeKind::Context);
+    for c in d.components.iter().filter(|c| c.len() > 1) {
+        let reader = |i: usize| reads(i) || targets(i).iter().any(|t| !c.contains(t) && reads(*t));
+        if c.iter().any(|&i| reader(i)) {
+            let root = *c.last().unwrap();
+            return Some(if reader(root) { "entered at the reading member" } else { "entered at another member" });
+        }
+    }
+    None
+}
+
 fn symbol_class(s: &str) -> &'static str {
     if s.starts_with("::generated::clone_") {
         "generated-clone"
@@ -1260,7 +1591,7 @@ fn run_case(rep: &mut Report, drv: &mut Driver, seed: u64, index: u64) {
     rep.hist("items", n.to_string());
     rep.hist("expect", describe(&case.expect));
     rep.hist("variant", (index % VARIANTS).to_string());
-    rep.hist("stream", if index / VARIANTS < boundary_count() { "class-representatives" } else { "random" });
+    rep.hist("stream", if index / VARIANTS >= EXT_BASE { "class-representatives (extended cycle table)" } else if is_rep(index / VARIANTS) { "class-representatives" } else { "random" });
     rep.hist("modules-used", items.iter().map(|i| i.module).collect::<BTreeSet<_>>().len().to_string());
     for it in items {
         if it.uses_ctx {
@@ -1270,13 +1601,14 @@ fn run_case(rep: &mut Report, drv: &mut Driver, seed: u64, index: u64) {
             rep.hist("local-compound", format!("{} in {}", LOCAL_NAMES[it.local as usize].0, if it.is_const { "const" } else { "fn" }));
         }
         if it.is_const {
-            rep.hist("accessor", format!("{}{}{}", if it.acc & 1 == 1 { "filtermap" } else { "fn" }, if it.acc & 2 == 2 { " first" } else { " last" }, if it.acc & 4 == 4 { " +test" } else { "" }));
+            rep.hist("accessor", format!("{}{}{}", if it.acc & 1 == 1 { "filtermap" } else { "fn" }, if it.acc & 2 == 2 { " first" } else { " last" }, if it.acc & 4 == 4 { " +test" } else { "" }) + if it.acc & 8 == 8 { " (own module)" } else { "" });
             rep.hist("const-type", format!("{}{}", TY_NAMES[it.ty as usize], if it.alias.is_some() { " +alias" } else { "" }));
         }
         for r in &it.refs {
             let t = &items[r.to];
             if t.is_const {
                 rep.hist("const-read-form", format!("{}:{}", TY_NAMES[t.ty as usize], read_form(t, r.form).0));
+                rep.hist("const-read-sites", format!("{} in {}", MULTI[r.multi as usize].0, if it.is_const { "const" } else { "fn" }));
             }
             rep.hist(
                 "ref-style",
@@ -1305,8 +1637,13 @@ fn run_case(rep: &mut Report, drv: &mut Driver, seed: u64, index: u64) {
     let _ = take_dump();
     let checked = catch_unwind(AssertUnwindSafe(|| typecheck_only(tree(&files.files), &rt)));
     let dump1 = take_dump();
+    let mut entry = "-";
     if let Some(d) = &dump1 {
         check_edges(rep, drv, &case, d, &input);
+        if let Some(e) = cycle_entry(d) {
+            entry = e;
+            rep.hist("context-behind-function-cycle", format!("{e}, {}", describe(&case.expect)));
+        }
     } else if matches!(checked, Ok(Ok(()))) {
         rep.mismatch("no dump recorded for a type-checked program", input.clone());
     }
@@ -1321,7 +1658,7 @@ fn run_case(rep: &mut Report, drv: &mut Driver, seed: u64, index: u64) {
         if let Some(d) = &dump1 {
             check_model(rep, drv, d, None, &input);
         }
-        rep.class(format!("{}|typechecked|{}", describe(&case.expect), form));
+        rep.class(format!("{}|typechecked|{}|{}", describe(&case.expect), form, entry));
         return;
     }
 
@@ -1335,6 +1672,9 @@ fn run_case(rep: &mut Report, drv: &mut Driver, seed: u64, index: u64) {
     if let Some(l) = &lir {
         let ok = matches!(compiled, Ok(Ok(_)));
         check_lir(rep, drv, l, if ok { Some(&log) } else { None }, compiled.is_err(), &input);
+        if ok {
+            check_read_sites(rep, &case, l, &input);
+        }
         for i in l {
             for f in &i.funcs {
                 if f.starts_with("::generated::") {
@@ -1452,9 +1792,11 @@ fn run_case(rep: &mut Report, drv: &mut Driver, seed: u64, index: u64) {
                             let it = &items[i];
                             if it.is_const {
                                 let want = o.constant(i);
-                                let mut names = vec![format!("rd_{}", it.name())];
+                                let am = format!("{}.", acc_module(it));
+                                let am = am.strip_prefix("pkg.").unwrap_or(&am).to_string();
+                                let mut names = vec![format!("{am}rd_{}", it.name())];
                                 if it.alias.is_some() {
-                                    names.push(format!("rd_A{}", it.n));
+                                    names.push(format!("{am}rd_A{}", it.n));
                                 }
                                 for name in names {
                                     let got = if it.acc & 1 == 1 {
@@ -1546,8 +1888,14 @@ fn run_case(rep: &mut Report, drv: &mut Driver, seed: u64, index: u64) {
     } else {
         items.iter().find(|i| i.uses_ctx).map(|i| CTX_FORMS[i.ctx_form as usize].0).unwrap_or("-")
     };
+    let sites = items
+        .iter()
+        .flat_map(|i| i.refs.iter().map(move |r| (i, r)))
+        .find(|(_, r)| items[r.to].is_const && r.multi != 0)
+        .map(|(i, r)| format!("{}:{}", MULTI[r.multi as usize].0, if i.is_const { "c" } else { "f" }))
+        .unwrap_or("-".into());
     rep.class(format!(
-        "{}|{}|c{}f{}e{}|fcycle={}|mods={}|v{}|compound={}|ctx={}",
+        "{}|{}|c{}f{}e{}|fcycle={}|mods={}|v{}|compound={}|ctx={}|entry={entry}|sites={sites}",
         describe(&case.expect),
         class,
         nconst,
@@ -1563,6 +1911,38 @@ fn run_case(rep: &mut Report, drv: &mut Driver, seed: u64, index: u64) {
         rep.sample(json!({"case": input, "outcome": class, "log": log,
             "impl_order": dump.as_ref().map(|d| match &d.order { Ok(o) => json!(o.iter().map(|i| d.nodes[*i].name.clone()).collect::<Vec<_>>()), Err(e) => json!({"error": e}) }),
             "lir_items": lir.as_ref().map(|l| l.iter().map(|i| i.name.clone()).collect::<Vec<_>>())}));
+    }
+}
+
+/// The order in which the SCC pass and the context check visit the items is the
+/// order of their `ResolvedName`s, i.e. (module scope, identifier), and
+/// identifiers compare by their number in a process-wide interner — by when the
+/// process first saw them. So that a case behaves the same in a batch and when
+/// replayed alone, every process first type checks one fixed program that
+/// mentions every name the generator uses, in a fixed order.
+fn warm_up() {
+    let mut s = String::new();
+    for n in 0..12 {
+        s.push_str(&format!("fn f{n}(d: u64) -> u64 {{ d }}\nconst K{n}: u64 = {n};\nconst A{n}: u64 = K{n};\n"));
+    }
+    for n in 0..12 {
+        s.push_str(&format!("fn rd_K{n}(d: u64) -> u64 {{ K{n} }}\nfn rd_A{n}(d: u64) -> u64 {{ A{n} }}\ntest t_K{n} {{ accept }}\ntest t_A{n} {{ accept }}\n"));
+    }
+    let rt = runtime();
+    let _ = catch_unwind(AssertUnwindSafe(|| typecheck_only(tree(&[(0, s)]), &rt)));
+    let _ = take_dump();
+}
+
+fn on_crash(seed: u64, base: u64) -> impl FnMut(&mut Report, u64, &rotov_harness::worker::Ended) {
+    move |rep: &mut Report, idx: u64, how: &rotov_harness::worker::Ended| {
+        let idx = base + idx;
+        let case = gen_case(seed, idx);
+        let files = render(&case);
+        rep.violation(
+            "the process died (abort/trap/timeout) while compiling or calling a generated program",
+            &format!("compile-crash:{}", describe(&case.expect)),
+            json!({"seed": seed, "index": idx, "ended": format!("{how:?}"), "files": files_json(&files)}),
+        );
     }
 }
 
@@ -1625,34 +2005,36 @@ fn main() {
             // the class representatives first, then random graphs
             let graphs: u64 = boundary_count() + if thorough { 10_000 } else { 1_500 };
             let seed_s = seed.to_string();
-            use rotov_harness::worker::{Ended, run_batches};
-            run_batches(
-                &[&seed_s],
-                graphs * VARIANTS,
-                400,
-                std::time::Duration::from_secs(600),
-                &mut rep,
-                |rep: &mut Report, idx: u64, how: &Ended| {
-                    let case = gen_case(seed, idx);
-                    let files = render(&case);
-                    rep.violation(
-                        "the process died (abort/trap/timeout) while compiling or calling a generated program",
-                        &format!("compile-crash:{}", describe(&case.expect)),
-                        json!({"seed": seed, "index": idx, "ended": format!("{how:?}"), "files": files_json(&files)}),
-                    );
-                },
-            );
+            use rotov_harness::worker::run_batches;
+            let crash = |base: u64| on_crash(seed, base);
+            if thorough {
+                // the extended table of function cycles (rings of up to four, every name order) first
+                run_batches(
+                    &[&seed_s, "ext"],
+                    scc_family(true) as u64 * VARIANTS,
+                    400,
+                    std::time::Duration::from_secs(600),
+                    &mut rep,
+                    crash(EXT_BASE * VARIANTS),
+                );
+            }
+            run_batches(&[&seed_s], graphs * VARIANTS, 400, std::time::Duration::from_secs(600), &mut rep, crash(0));
         }
         Some("worker") => {
             let seed: u64 = args[2].parse().unwrap();
-            let from: u64 = args[3].parse().unwrap();
-            let n: u64 = args[4].parse().unwrap();
+            // `worker <seed> [ext] <from> <n>`: `ext` = indices counted from the extended table
+            let (base, a) = if args[3] == "ext" { (EXT_BASE * VARIANTS, 4) } else { (0, 3) };
+            let from: u64 = args[a].parse().unwrap();
+            let n: u64 = args[a + 1].parse().unwrap();
             let mut drv = Driver::spawn().expect("lean driver");
-            for idx in from..from + n {
-                println!("START {idx}");
+            warm_up();
+            for i in from..from + n {
+                // (`START` carries the index relative to the stream: `run_batches` resumes from it)
+                println!("START {i}");
+                let idx = base + i;
                 run_case(&mut rep, &mut drv, seed, idx);
                 // a later case may kill the process: keep what has been found so far
-                if (idx - from) % 25 == 24 && idx + 1 < from + n {
+                if (i - from) % 25 == 24 && i + 1 < from + n {
                     rep.emit();
                 }
             }
@@ -1661,6 +2043,7 @@ fn main() {
             let v: Value = serde_json::from_str(&args[2]).expect("replay json");
             let v = if v.get("case").is_some() { v["case"].clone() } else { v };
             let mut drv = Driver::spawn().expect("lean driver");
+            warm_up();
             if let (Some(seed), Some(index)) = (v["seed"].as_u64(), v["index"].as_u64()) {
                 let case = gen_case(seed, index);
                 for (m, s) in &render(&case).files {
